@@ -14,7 +14,7 @@ N = {
 "C05-2": ("C05", "Replace with a value of the SAME scalar kind on a slot whose field object is shared (NewListOf(v,n>=2), SubList/Concat relatives): the scalar box is overwritten in place"),
 "C06": ("C06", "recv.Merge(arg) with arg.Count() > recv.Count() and a shared key with different values (roles swapped: receiver wins)"),
 "C06-2": ("C06", "Keys() called once, then >= 2 mutations that change the key set but restore the count WITHOUT a Keys() call in between, then Keys(): cache validated only by the field count"),
-"C06-merge-empty-receiver": ("C06", "Merge on an EMPTY receiver returns a deep copy of the argument (nested containers are copies instead of the argument's own). NOT a violation under the reading we check: the statement and C09 leave sharing vs copying of nested containers in Merge open, and the unchanged tree itself deep-copies the receiver's nested containers. Kept for the record; deliberately not reported."),
+"C06-merge-empty-receiver": ("C06", "Merge on an EMPTY receiver returns a deep copy of the argument (nested containers are copies instead of the argument's own). First classified as outside the statement; a second independent author chose the same change in round 5, and the reading was tightened: the result must hold the ARGUMENT's own containers ('prefers the argument's value'; a container value is a reference), the receiver's side stays open. Reported since then."),
 "C07": ("C07", "two objects with the same key count where every receiver key missing on the other side holds nil (atNil.isEqual accepts an untyped nil = missing key)"),
 "C07-2": ("C07", "the receiver list holds ONE field object in two adjacent slots (NewListOf(v,n>=2), or the same nested container twice) and the other operand differs in the 2nd+ slot of the run"),
 "C08": ("C08", "a list produced by Concat, SubList or NewListOf that holds a nested container, then Clone (cached 'nested' flag not maintained by those constructors), then a mutation or identity comparison"),
@@ -83,6 +83,26 @@ N = {
 "C18-4": ("C18", "IntMin/IntMax on a list where a non-int element precedes an int: filter-in-place idiom compacts the receiver's own backing array (the call modifies the list)"),
 "C19-4": ("C19", "object UnsetTF with a path through a nested OBJECT (.a.b): tail call returns the nested object instead of the registered outer value"),
 "C20-4": ("C20", "ParseFile (only) on a file with a lone CR before the error: line endings 'normalised' to LF before parsing, cited line too large"),
+"C01-5": ("C01", "ONE string value containing both a character serialised as \\u00XX (C0 control other than \\b\\f\\n\\r\\t, DEL) and a quote / backslash / line feed: short escapes resolved inline, then the whole buffer decoded a second time"),
+"C02-5": ("C02", "an object KEY containing '%': the quoted key became part of an Fprintf format string (variant of C01-3 in another code site)"),
+"C03-5": ("C03", "a decimal literal with a fraction, no exponent, whose 16-19 digits form an integer in [2^53, 2^63): digits converted as one integer and divided by a power of ten (double rounding, ~10 % of such literals are 1 ulp off)"),
+"C04-5": ("C04", "a LIST string element that ends with an escaped backslash, followed later by a string containing ']': 'previous char is a backslash' mistaken for 'the quote is escaped', a proper prefix is accepted"),
+"C05-5": ("C05", "Contains/IndexOf with a List/Object argument while the receiver holds a DIFFERENT but deep-equal container: lookup by structure instead of identity"),
+"C06-5": ("C06", "Merge on an EMPTY receiver returns a deep copy of the argument: the result does not hold the argument's own containers (same idea as round 1's C06-merge-empty-receiver; from round 5 on reported, see DESIGN)"),
+"C07-5": ("C07", "two DISTINCT float64 values closer than a relative 1e-12 compare equal (tolerance): Equals no longer exact, not transitive"),
+"C08-5": ("C08", "a nested container that is EMPTY when Clone is called is shared between clone and source ('nothing to copy')"),
+"C09-5": ("C09", "Object.Clear also empties the nested containers it holds: reaches the other results that share them by reference"),
+"C10-5": ("C10", "index segments in a non-canonical spelling (0x1, 0b11, 08, 010): GetTF parses with Atoi, TypeOfTF with base-0 ParseInt - the two readers disagree"),
+"C11-5": ("C11", "a tree that holds a key containing a separator (\"a.b\") next to the path a -> b: SetTF's 'present field' fast path writes the sibling \"a.b\""),
+"C12-5": ("C12", "NaN, +Inf, -Inf (float64 or float32) through any entry point: stored as nil instead of float"),
+"C13-5": ("C13", "a float32 leaf that is not a short decimal as float64 (0.1f, 3.14f, 1/3): 'prettified' when widened, the stored number differs"),
+"C14-5": ("C14", "MapValues on a list holding objects/lists with a callback that looks at identity: the callback receives deep copies instead of what Get returns"),
+"C15-5": ("C15", "ForEachAsync throttled to GOMAXPROCS workers by a channel semaphore: with more entries than processors and callbacks that wait for a later callback, the later one is never started (deadlock)"),
+"C16-5": ("C16", "an invalid indent whose low byte is 0..10 (256..266, 512, 65536): range check truncated to uint8, no panic"),
+"C17-5": ("C17", "a float list holding both -0.0 and +0.0: values counted in a map[float64]int, the first-seen zero is emitted twice (not a permutation)"),
+"C18-5": ("C18", "IntMin/IntMax on a NON-EMPTY list without ints: 'list is empty' used as stand-in for 'no int present', the fold's initial value leaks out"),
+"C19-5": ("C19", "two embedding levels where the inner constructor registers first: Init keeps the first derived registration, Ego/fluent methods return the intermediate value"),
+"C20-5": ("C20", "an EMPTY (or trailing-comma) multi-line nested object followed by a later error: one return path does not write the local line counter back"),
 }
 rows = []
 base = '/verif/seeded'
@@ -93,9 +113,9 @@ for d in sorted(os.listdir(base)):
     m = json.load(open(p))
     prop, need = N.get(d, (d.split('-')[0], m.get('needs_to_manifest', '')))
     m['breaks_property'], m['needs_to_manifest'] = prop, need
-    m['round'] = 4 if d.endswith('-4') else 3 if d.endswith('-3') else 2 if d.endswith('-2') else 1
+    m['round'] = 5 if d.endswith('-5') else 4 if d.endswith('-4') else 3 if d.endswith('-3') else 2 if d.endswith('-2') else 1
     if d == "C06-merge-empty-receiver":
-        m['classification'] = 'not a violation of the statement as we read it; not detected by design'
+        m['classification'] = 'first read as outside the statement, reading tightened in round 5; detected since'
     json.dump(m, open(p, 'w'), indent=1)
     c = m['confirmed']
     rows.append(f"| {d} | {prop} | {need} | {'yes' if all(c.values()) else c} | {', '.join(m['detected_by']) or '—'} |")
@@ -106,7 +126,10 @@ detected at once, 13 missed (most of them history-dependent); round 3 - 12 of 20
 (size thresholds, byte classes, parser-made containers, argument mutation, integer overflow in a path index, keys ending in
 white space, concurrent Equals with an equal-length unequal operand); round 4 - 14 of 20 detected at once, 6 missed
 (state after a rejected call, nil inside typed container slices, re-entrant async callbacks, nesting depth x indent, ints that
-collapse as float64, an entry point that rewrites its input). What was strengthened for each miss is described in
+collapse as float64, an entry point that rewrites its input); round 5 - 12 of 20 detected at once, 8 missed
+(long decimal mantissas, identity of the argument's containers in Merge, disagreement of the two tree-form readers on odd index
+spellings, keys containing a separator, non-finite floats, float32 leaves that are not short decimals, callbacks that wait
+for each other, indents far outside the range). What was strengthened for each miss is described in
 DESIGN.md section 9. `tools/seed_all.sh` re-verifies every entry against the check of its property.
 """
 open(f'{base}/README.md', 'w').write(head + "| id | property | needs to manifest | compiles, tests pass, demo fails with / passes without | detected by (quick tier) |\n|---|---|---|---|---|\n" + "\n".join(rows) + "\n" + tail)
